@@ -76,6 +76,12 @@ def deliveries(rng, lines, quic, thorough):
     for l in L:
         parts[rng.randrange(k)].append(l)
     out.append((f"dsb-split-{k}", None, [("before", text(p) if p else b"#\n") for p in parts], {}))
+    noeol = lambda ls: "\n".join(ls).encode() if ls else b"#"
+    out.append((f"dsb-split-{k}-no-final-eol", None, [("before", noeol(p)) for p in parts], {}))
+    out.append(("dsb-per-line-no-final-eol", None, [("before", l.encode()) for l in L], {}))
+    if not quic:
+        out.append(("dsb-per-line-no-final-eol-scattered", None, [(None, l.encode()) for l in L], {}))
+    out.append(("dsb-no-final-eol+file", text(L[len(L) // 2:]) if len(L) > 1 else b"\n", [("before", noeol(L[: max(1, len(L) // 2)]))], {}))
     out.append(("dsb-short-line-block", None, [("before", b"#\n"), ("before", text(L))], {}))
     out.append(("dsb-before-bigendian", None, [("before", text(L))], {"le": False}))
     out.append(("file-bigendian", text(L), [], {"le": False}))
